@@ -214,6 +214,10 @@ func (p *sparser) unary() SExpr {
 		p.next()
 		return &SUn{"-", p.unary()}
 	}
+	if p.isOp("&") {
+		p.next()
+		return &SUn{"&", p.unary()}
+	}
 	return p.postfix(p.primary())
 }
 
